@@ -46,6 +46,17 @@ class Loops:
     def modified(self, ex, nodes):
         """syntactic over-approximation of what a loop may modify: list of (Path, elements_only)"""
         mods = []
+        local_inits = {}
+
+        def collect(n):
+            if isinstance(n, dict):
+                if n.get('kind') == 'VarDecl' and n.get('inner'):
+                    local_inits[n['id']] = n['inner'][-1]
+                for c in n.get('inner', ()):
+                    collect(c)
+        for nd in nodes:
+            if nd:
+                collect(nd)
 
         def base(e, elem=False):
             e = strip_casts(e)
@@ -55,7 +66,12 @@ class Loops:
                 if rid in ex.bindings:
                     return ex.resolve(ex.bindings[rid]), elem
                 if rid not in ex.store:
-                    return None, elem   # declared inside the loop
+                    # declared inside the loop: pointers / references alias what they were initialised from
+                    t = e.get('type', {}).get('qualType', '')
+                    rt = e['referencedDecl'].get('type', {}).get('qualType', '')
+                    if rid in local_inits and ('*' in rt or '&' in rt):
+                        return base(local_inits[rid], elem or ('*' in rt))
+                    return None, elem
                 v = ex.store[rid]
                 if isinstance(v, RefVal):
                     return ex.resolve(v.path), elem
@@ -108,6 +124,9 @@ class Loops:
                 mods.append((p, el))
 
         def is_const_method(decl, name):
+            if name in ('data', 'begin', 'end', 'cbegin', 'cend', 'size', 'empty', 'operator[]', 'operator()',
+                        'slice', 'to_vec', 'at', 'front', 'back', 'coeffs'):
+                return True     # accessors: writes through what they return are tracked at the write
             if decl is not None:
                 t = decl.get('type', {}).get('qualType', '')
                 return t.rstrip().endswith('const') or ') const' in t
